@@ -47,6 +47,7 @@ def describe (s : St) : Tid → String
     | .rJoin => "join R"
     | .exitPut _ => if capFull s.cfg.workCap s.workQ then "workQ.put Full" else "workQ.put None"
     | .exitJoin i => s!"join W{(s.procs[i]?).getD 0}"
+    | .midReady _ wid => s!"W{wid}.begin_finished.wait"
     | .done => "done"
   | .f => match s.fpc with
     | .idle => "idle"
@@ -110,12 +111,15 @@ def sectionOf (ws : List String) (name : String) : List String :=
 
 def poolStep (s : St) (ws : List String) : St × String :=
   match ws with
-  | "cfg" :: n :: wc :: rc :: fac :: quota :: ready :: rest =>
+  | "cfg" :: n :: wc :: rc :: fac :: quota :: ready :: rest0 =>
+    -- optional token `rm:1` anywhere after the fixed fields: `until_all_ready()` in the middle of every call (`Cfg.readyMid`)
+    let rm := rest0.contains "rm:1"
+    let rest := rest0.filter (fun w => !(w.startsWith "rm:"))
     match n.toNat?, optNat wc, optNat rc, optNat quota, parseCalls (sectionOf rest "calls:"),
           parseNats (sectionOf rest "bf:"), parsePairsColon (sectionOf rest "if:") with
     | some n, some wc, some rc, some quota, some calls, some bf, some itf =>
       let cfg : Cfg := { nWorkers := n, workCap := wc, resCap := rc, factory := fac == "1", quota := quota,
-                         waitReady := ready == "1", calls := calls, beginFault := bf, itemFault := itf }
+                         waitReady := ready == "1", calls := calls, beginFault := bf, itemFault := itf, readyMid := rm }
       (init cfg, "ok")
     | _, _, _, _, _, _, _ => (s, "bad-op")
   | ["step", t] => match parseTid t with
@@ -137,6 +141,6 @@ def poolStep (s : St) (ws : List String) : St × String :=
   | _ => (s, "bad-op")
 
 def poolMachine : Machine :=
-  { σ := St, init := init ⟨1, none, none, false, none, false, [], [], []⟩, step := poolStep }
+  { σ := St, init := init ⟨1, none, none, false, none, false, [], [], [], false⟩, step := poolStep }
 
 end WindVerif.Drv
